@@ -281,31 +281,54 @@ func c19Derived(c *Ctx, r *Report) {
 		r.fn(fname)
 		var ps []string
 		calls := callsInFn(fn, next)
-		if len(calls) != 1 {
-			ps = append(ps, fmt.Sprintf("%d calls of NextLabel, want one (in the loop)", len(calls)))
+		// one step in the loop; a three-clause loop makes the first step in front of it (for off, end :=
+		// NextLabel(s, 0); !end; off, end = NextLabel(s, off)): then that step starts at 0 and the step in the loop
+		// goes on from where the step before it ended
+		inCycle := func(b *ssa.BasicBlock) bool {
+			for _, sx := range b.Succs {
+				if reach(sx, nil, nil)[b] {
+					return true
+				}
+			}
+			return false
+		}
+		isStep := map[ssa.Value]bool{}
+		nLoop, zeroFeeds := 0, 0
+		for _, ci := range calls {
+			isStep[ci.(*ssa.Call)] = true
+			if inCycle(ci.(*ssa.Call).Block()) {
+				nLoop++
+			}
+		}
+		if nLoop != 1 || len(calls) > 2 {
+			ps = append(ps, fmt.Sprintf("%d calls of NextLabel (%d in the loop), want one in the loop (and at most a first step in front of it)", len(calls), nLoop))
 		}
 		for _, ci := range calls {
 			call := ci.(*ssa.Call)
 			off := call.Call.Args[1]
-			phi, ok := off.(*ssa.Phi)
-			if !ok {
+			if k, isK := constIntOf(off); isK && k == 0 && !inCycle(call.Block()) {
+				zeroFeeds++ // the first step, made once
+			} else if phi, ok := off.(*ssa.Phi); !ok {
 				ps = append(ps, "the offset handed to NextLabel is not the loop-carried offset")
 				continue
-			}
-			zeroInit, fedBack := false, false
-			for _, e := range phi.Edges {
-				if k, isK := constIntOf(e); isK && k == 0 {
-					zeroInit = true
+			} else {
+				fedBack := false
+				for _, e := range phi.Edges {
+					if k, isK := constIntOf(e); isK && k == 0 {
+						zeroFeeds++
+						continue
+					}
+					if ex, ok := e.(*ssa.Extract); ok && isStep[ex.Tuple] && ex.Index == 0 {
+						if ex.Tuple == ssa.Value(call) {
+							fedBack = true
+						}
+						continue
+					}
+					ps = append(ps, "the offset handed to NextLabel is neither 0 nor the offset the step before returned")
 				}
-				if ex, ok := e.(*ssa.Extract); ok && ex.Tuple == ssa.Value(call) && ex.Index == 0 {
-					fedBack = true
+				if !fedBack {
+					ps = append(ps, "the offset NextLabel returns is not what the next step starts from")
 				}
-			}
-			if !zeroInit {
-				ps = append(ps, "the walk does not start at offset 0")
-			}
-			if !fedBack {
-				ps = append(ps, "the offset NextLabel returns is not what the next step starts from")
 			}
 			// the end flag decides the return
 			endUsed := false
@@ -325,6 +348,9 @@ func c19Derived(c *Ctx, r *Report) {
 			if call.Call.Args[0] != ssa.Value(fn.Params[0]) {
 				ps = append(ps, "NextLabel is not given the name itself")
 			}
+		}
+		if zeroFeeds != 1 {
+			ps = append(ps, "the walk does not start at offset 0")
 		}
 		r.check(len(ps) == 0, "C19.R2.walk", fname, c.pos(fn.Pos()), "NextLabel from 0, fed back", "%s: %s no longer visits exactly the label starts NextLabel finds", strings.Join(ps, "; "), fname)
 	}
